@@ -595,6 +595,11 @@ func checkCSV(p *Program, ref *Ref, text string) (sig, msg string) {
 			}
 			gotCols[cn] = true
 		}
+		if p.TrimCols > 0 && len(wantCols) > p.TrimCols && len(gotCols) == p.TrimCols {
+			if sig, msg := trimmedExport(p, hdr, rows, wantCols, want); sig != "" {
+				return sig, msg
+			}
+		}
 		for _, cn := range setOf(wantCols) {
 			if !gotCols[cn] {
 				return "column-missing", fmt.Sprintf("column %q of the reference aggregation is not exported; exported columns %q, reference columns %q", cn, hdr[1:], setOf(wantCols))
@@ -674,6 +679,43 @@ func checkCSV(p *Program, ref *Ref, text string) (sig, msg string) {
 	return "", ""
 }
 
+// trimmedExport recognises exactly one defect class: spark with fewer --cols
+// than aggregated columns exports only --cols of the reference columns (with
+// their correct cells, and only the rows that have a cell in them). Anything
+// else falls through to the general signatures.
+func trimmedExport(p *Program, hdr []string, rows [][]string, wantCols map[string]bool, want map[string]int64) (string, string) {
+	for _, cn := range hdr[1:] {
+		if !wantCols[cn] {
+			return "", ""
+		}
+	}
+	wantRows := map[string]bool{}
+	for k := range want {
+		rc := strings.SplitN(k, "\x00", 2)
+		for _, cn := range hdr[1:] {
+			if rc[1] == cn {
+				wantRows[rc[0]] = true
+			}
+		}
+	}
+	seen := map[string]bool{}
+	for _, r := range rows {
+		if !wantRows[r[0]] || seen[r[0]] {
+			return "", ""
+		}
+		seen[r[0]] = true
+		for i, cell := range r[1:] {
+			if cell != strconv.FormatInt(want[r[0]+"\x00"+hdr[i+1]], 10) {
+				return "", ""
+			}
+		}
+	}
+	if len(seen) != len(wantRows) {
+		return "", ""
+	}
+	return "columns-trimmed-to-cols", fmt.Sprintf("the export holds only %d of the %d aggregated columns (%q of %q) and only the rows with a cell in them: the table was trimmed to --cols %d before it was exported", len(hdr)-1, len(wantCols), hdr[1:], setOf(wantCols), p.TrimCols)
+}
+
 func cmpMaps(what string, got, want map[string]int64) (string, string) {
 	var ks []string
 	for k := range want {
@@ -716,6 +758,12 @@ func checkSnapshot(p *Program, ref *Ref, o *observation) (sig, msg string) {
 	}
 	want := ref.summaryInts(p)
 	if fmt.Sprint(got) != fmt.Sprint(want) {
+		if p.TrimCols > 0 && len(got) == len(want) && len(want) >= 4 && got[0] == want[0] && got[1] == want[1] &&
+			fmt.Sprint(got[4:]) == fmt.Sprint(want[4:]) && got[3] == int64(p.TrimCols) && want[3] > got[3] && got[2] <= want[2] {
+			// only the row/column counts differ and the column count is --cols:
+			// the same trimming as in the export
+			return "summary-rows-cols-after-trim-to-cols", fmt.Sprintf("summary line %q counts %d rows and %d columns, the reference aggregation has %d rows and %d columns (table trimmed to --cols %d)", summary, got[2], got[3], want[2], want[3], p.TrimCols)
+		}
 		return "summary-counts", fmt.Sprintf("summary line %q carries the numbers %v, reference %v (matched, read, group/row/column counts, ignored, errors)", summary, got, want)
 	}
 	var nonEmpty []string
